@@ -84,7 +84,7 @@ fn visible(m: &Melda) -> String {
 pub fn commit_faults() {
     let k = sym::param(0) as usize;
     let nfail = sym::param(1) as usize;
-    let (a, st) = fault_rep();
+    let (mut a, st) = fault_rep();
     a.m.update(doc_with(&["a", "b"], &["x".to_string(), "y".to_string()], "t")).unwrap();
     a.m.commit(None).expect("first commit").expect("block");
     let before = visible(&a.m);
@@ -98,7 +98,7 @@ pub fn commit_faults() {
     twin.m.update(d.clone()).unwrap();
     twin.m.commit(None).unwrap();
     let after = visible(&twin.reopen());
-    a.m.update(d).unwrap();
+    a.m.update(d.clone()).unwrap();
     if !a.m.has_staging() {
         sym::reach(2);
         return;
@@ -126,6 +126,14 @@ pub fn commit_faults() {
             Err(_) => {
                 assert!(a.m.has_staging(), "staged changes lost by a failed commit");
                 assert!(visible(&a.m) == staged_view, "a failed commit changed what the replica shows");
+                // the application may also abandon the failed commit and submit the same edit again from scratch
+                if sym::any_bool() {
+                    a.m.unstage().expect("unstage after a failed commit");
+                    assert!(visible(&a.m) == before, "unstage after a failed commit does not restore the committed state");
+                    a.m.update(d.clone()).unwrap();
+                    assert!(a.m.has_staging(), "re-submitting the edit after unstage staged nothing");
+                    assert!(visible(&a.m) == staged_view, "re-submitted edit shows a different state");
+                }
             }
         }
     }
